@@ -104,3 +104,4 @@ def run(ctx):
         except (AssertionError, KeyError, ValueError, TypeError, IndexError, ZeroDivisionError, AttributeError) as e:
             ctx.ob(key + '/paths', False, 'path structure', w, 'analysable', str(e))
     ctx.floor('roots analysed', done, len(roots))
+    ctx.floor('API uses generated (counted at implementation time)', len(roots), 22)
